@@ -191,14 +191,19 @@ def space_of(m):
 
 # --------------------------------------------------------------------------------------
 _STACK = []
+HOLD = 0          # > 0 while the observer itself calls hooked methods: those events are dropped
 
 
 def pre(ev, args, kwargs):
+    if HOLD:
+        return {'_held': True}
     _STACK.append(ev)
     return _pre(ev, args, kwargs)
 
 
 def post(ev, args, kwargs, ret, exc, pre_, depth):
+    if isinstance(pre_, dict) and pre_.get('_held'):
+        return None
     parent = _STACK[-2] if len(_STACK) > 1 else ''
     try:
         if ev.startswith('domain.ma_') and depth > 0 and not parent.startswith('calc.'):
